@@ -184,7 +184,14 @@ func checkMain(args []string) int {
 		dir = filepath.Join(w.Scratch, "smt")
 	}
 	os.MkdirAll(dir, 0755)
+	dbg := os.Getenv("VERIF_DEBUG") != ""
+	if dbg {
+		fmt.Fprintf(os.Stderr, "[%.1fs] encoded %d functions\n", time.Since(t0).Seconds(), len(results))
+	}
 	solveAll(results, dir, sec, all, 12)
+	if dbg {
+		fmt.Fprintf(os.Stderr, "[%.1fs] solved\n", time.Since(t0).Seconds())
+	}
 
 	// verdict
 	known := loadKnown()
@@ -297,11 +304,20 @@ func checkMain(args []string) int {
 	os.RemoveAll(replayDir)
 	nviol := 0
 	sortObls(failing)
+	// replays share a time budget; safety obligations first (their models are direct inputs)
+	sort.SliceStable(failing, func(i, j int) bool { return replayRank(failing[i]) < replayRank(failing[j]) })
+	replayDeadline = time.Now().Add(150 * time.Second)
+	if *tier == "thorough" {
+		replayDeadline = time.Now().Add(15 * time.Minute)
+	}
 	for _, o := range failing {
 		nviol++
 		os.MkdirAll(replayDir, 0755)
 		path := filepath.Join(replayDir, clean(strings.TrimPrefix(o.Name, ""))+".json")
 		rep := buildReplay(w, encOf[o], o, dir)
+		if dbg {
+			fmt.Fprintf(os.Stderr, "[%.1fs] replay of %s done: %s\n", time.Since(t0).Seconds(), o.Name, trunc(rep.Note, 100))
+		}
 		rb, _ := json.MarshalIndent(rep, "", " ")
 		os.WriteFile(path, rb, 0644)
 		suffix := ""
@@ -424,4 +440,14 @@ func buildReplay(w *World, r *FuncResult, o *Obligation, dir string) *Replay {
 		}
 	}
 	return rep
+}
+
+func replayRank(o *Obligation) int {
+	switch {
+	case o.Class == "post":
+		return 1
+	case strings.HasPrefix(o.Class, "inv-"), strings.HasPrefix(o.Class, "pre@"):
+		return 2
+	}
+	return 0
 }
